@@ -603,6 +603,13 @@ pub const MS: u64 = 1_000_000;
 /// crate's own threaded test sources do). `gaps` = virtual-time sleep before
 /// each event (ms; empty = none). Every would-be emission is marked in `causes`.
 pub fn threaded_source(label: &'static str, script: Vec<Emit<i64>>, gaps: Vec<u64>, causes: Causes) -> Observable<'static, i64> {
+  threaded_source_opt(label, script, gaps, causes, true)
+}
+/// the same, but a *rude* producer that never looks at is_subscribed()
+pub fn rude_threaded_source(label: &'static str, script: Vec<Emit<i64>>, causes: Causes) -> Observable<'static, i64> {
+  threaded_source_opt(label, script, vec![], causes, false)
+}
+pub fn threaded_source_opt(label: &'static str, script: Vec<Emit<i64>>, gaps: Vec<u64>, causes: Causes, polite: bool) -> Observable<'static, i64> {
   Observable::create(move |s: Observer<'static, i64>| {
     let (script, gaps, causes) = (script.clone(), gaps.clone(), causes.clone());
     another_rxrust::vstd::thread::spawn(move || {
@@ -612,7 +619,7 @@ pub fn threaded_source(label: &'static str, script: Vec<Emit<i64>>, gaps: Vec<u6
             another_rxrust::vstd::thread::sleep(ms(*g));
           }
         }
-        if !s.is_subscribed() {
+        if polite && !s.is_subscribed() {
           causes.mark(&format!("{}:stopped", label));
           break;
         }
